@@ -19,6 +19,14 @@ func init() {
 	glTargets = append(glTargets,
 		// C17
 		glTarget{pkg: "cmd/keymasterd", name: "isSafeLoginDestination", group: "LoginDest", retLean: "Bool"},
+		glTarget{pkg: "cmd/keymasterd", name: "getLoginDestination", group: "LoginDest",
+			binders:   "(formValue : List Char)",
+			paramLean: map[string]string{"r": ""},
+			paths: map[string][2]string{
+				"r.FormValue(\"login_destination\")": {"formValue", "string"},
+				"r.Form.Get(\"login_destination\")":  {"formValue", "string"},
+				"profilePath":                         {"\"/profile/\".toList", "string"}},
+			retLean: "List Char"},
 		// C13
 		glTarget{pkg: "cmd/keymasterd", name: "hostMatchesDomain", group: "Oidc", retLean: "Bool"},
 		glTarget{pkg: "cmd/keymasterd", name: "CanRedirectToURL", group: "Oidc",
